@@ -139,7 +139,9 @@ def _template_correspondence(ctx):
 PAY = ['<x9 y9="1">', '"><x9>', "' z9='1", '" z9="1', "<script>x9()</script>", "&lt;x9&gt;", "<!--x9-->", "</p><x9>", "<x9", "x9>", "&#60;x9&#62;",
        "&#x3c;x9 y9&#x3d;1&#x3e;", "&amp;lt;x9&amp;gt;"]
 PAYURL = ["javascript:x9()", "JAVASCRIPT:x9", "vbscript:x9", "data:text/html,<x9>", "file:///x9", "javascript&colon;x9", "javascript&#58;x9",
-          "javascript&amp;colon;x9", "&#106;avascript:x9", "java&#9;script:x9", "jav&#x61;script&amp;#58;x9"]
+          "javascript&amp;colon;x9", "&#106;avascript:x9", "java&#9;script:x9", "jav&#x61;script&amp;#58;x9",
+          # what a browser removes before it looks at the scheme: leading C0 controls and spaces, tabs and newlines anywhere
+          "\tjavascript:x9", "java\tscript:x9", "\x01javascript:x9", "\x0cjavascript:x9", "\x1fvbscript:x9", "javascript\t:x9"]
 
 ALLOWED_TAGS = None
 
@@ -158,7 +160,7 @@ class Reader(HTMLParser):
             if k in ("y9", "z9") or k.startswith("on"):
                 self.bad.append(("attribute", tag, k))
             if k in ("href", "src") and v is not None:
-                vv = v.strip().lower()
+                vv = v.strip("".join(map(chr, range(0x21)))).lower()      # leading and trailing C0 controls and space
                 vv2 = re.sub(r"[\t\n\r]", "", vv)
                 for scheme in ("javascript:", "vbscript:", "file:", "data:"):
                     if vv2.startswith(scheme) and not vv2.startswith(("data:image/gif;", "data:image/png;", "data:image/jpeg;", "data:image/webp;")):
@@ -225,7 +227,24 @@ def converters(m):
         ("html-all+fenced", m.create_markdown(escape=True, plugins=P + [FencedDirective([Admonition(), TableOfContents(), Image(), Figure(), Include()])])),
         ("html-all+rst-hardwrap", m.create_markdown(escape=True, hard_wrap=True, plugins=P + ["speedup", RSTDirective([Admonition(), TableOfContents(), Image(), Figure(), Include()])])),
         ("html-core", m.create_markdown(escape=True)),
+        # the shortcut mistune.markdown() with its cache of converters, after calls by a caller who allowed everything
+        ("markdown()-after-permissive-calls", _After(m, {})),
+        ("markdown(plugins)-after-permissive-calls", _After(m, {"plugins": ["table", "footnotes", "url", "math"]})),
     ]
+
+
+class _After:
+    """mistune.markdown(doc, **kw) with the defaults (escape on), called after the same shortcut was used with escape=False and
+    with a renderer that allows every protocol: the cached converters of those calls must not serve this one"""
+
+    def __init__(self, m, kw):
+        self.m, self.kw = m, kw
+
+    def __call__(self, doc):
+        from mistune.renderers.html import HTMLRenderer
+        self.m.markdown("<b>trusted</b> [a](javascript:ok)", escape=False, **self.kw)
+        self.m.markdown("[a](javascript:ok)", renderer=HTMLRenderer(escape=False, allow_harmful_protocols=True), **self.kw)
+        return self.m.markdown(doc, **self.kw)
 
 
 def check_doc(name, md, doc, fails, escape=True, filectx=False):
@@ -281,7 +300,7 @@ def oracle(ctx, extra):
                     "footnote definitions, tables, def lists, math, ruby, spoilers, abbreviations, directive titles/options/"
                     "bodies (fenced and RST), 45% generated documents with words replaced by payloads; output read with "
                     "html.parser: no x9 element, no y9/z9/on* attribute, no script element/comment from a payload, no href/src "
-                    "with a harmful scheme (the latter also with escape=False on documents without raw HTML); every document contains a payload; every 12th document is a set of include directives converted with a file context (payloads in targets, encodings, options and in the included files)",
+                    "with a harmful scheme (the latter also with escape=False on documents without raw HTML); every document contains a payload; converters: all plugins + fenced directives, all plugins + speedup + RST directives + hard_wrap, core, and the shortcut mistune.markdown() called after permissive calls of the same shortcut (escape=False, allow_harmful_protocols); every 12th document is a set of include directives converted with a file context (payloads in targets, encodings, options and in the included files)",
             "samples": [json.dumps(docs[0])[:300]]}
 
 
